@@ -90,6 +90,10 @@ class C11(Check):
             # the signer): each of their own getDongle calls failing
             for j in range(1, nom.get("opens", 0) + 1):
                 cs.append({"name": name, "idx": 0, "inner_open": j})
+        # two faults in a row: a time-out in one request, a link failure at the first exchange of the next
+        for name, nom in self.nominal.items():
+            for idx in sorted({0, nom["n"] - 1}):
+                cs.append({"name": name, "idx": idx, "twofaults": True})
         # the device comes back locked, in the bootloader: the repair is the long bring-up (unlock,
         # signer launched, second open); each of its exchanges failing in turn
         for platform in ("ledger", "sgx"):
@@ -177,6 +181,9 @@ class C11(Check):
         if case.get("relock"):
             self.relock(case, stats, vs)
             return vs
+        if case.get("twofaults"):
+            self.twofaults(case, stats, vs)
+            return vs
         if case.get("inner_open"):
             follows = self.follow1 if v1 else self.follow5
             for f in follows:
@@ -203,6 +210,58 @@ class C11(Check):
                     for kind2 in ("timeout", "write", "read"):
                         self.second(name, idx, fault, follows[0], j, kind2, stats, vs)
         return vs
+
+    def twofaults(self, case, stats, vs):
+        """request 1 times out at exchange idx (no repair is due for a time-out), request 2 meets a
+        write / read error at its first exchange: device-error code both times, and request 3 repairs
+        (close, open, bring-up) before its own APDUs"""
+        name, idx = case["name"], case["idx"]
+        v1 = name.startswith("v1-")
+        derr = -2 if v1 else -905
+        if self.nominal[name]["kinds"][idx] == "exit":
+            return
+        drain = "v1-getPubKey" if v1 else "getPubKey"
+        kinds2 = [case["kind2"]] if case.get("kind2") else ["write", "read"]
+        for kind2 in kinds2:
+            stats.evaluations += 1
+            dev = dialogues.configure(PowHsm(seed=b"c11"), name)
+            w = World(dev)
+            proto = harness.make_protocol(w, v1=v1, debug=getattr(self, "debug_dongle", False))
+            b1 = w.seq
+            w.inject = lambda world, i, apdu: ("timeout",) if i - b1 == idx else None
+            o1 = harness.handle_line(proto, json.dumps(self.req_of(name)).encode())
+            if dev.mode != MODE_SIGNER:
+                stats.dont_care += 1
+                continue
+            b2 = w.seq
+            w.inject = lambda world, i, apdu: (kind2,) if i == b2 else None
+            o2 = harness.handle_line(proto, json.dumps(self.req_of(drain)).encode())
+            w.inject = None
+            mark = len(w.log)
+            o3 = harness.handle_line(proto, json.dumps(self.req_of(drain)).encode())
+            codes = [o.reply.get("errorcode") if isinstance(o.reply, dict) else None for o in (o1, o2, o3)]
+            stats.observe(("twofaults", name, idx, kind2, tuple(codes), (o1.exc, o2.exc, o3.exc)), nontrivial=True)
+            c = dict(case, kind2=kind2)
+
+            def viol(clause, observed, expected):
+                vs.append(Violation("C11", "C11:%s:%s:timeout-then-%s" % (clause, name, kind2), c, None,
+                                    observed, expected, clause))
+            if o1.exc or o2.exc or o3.exc:
+                viol("faulted-request-stops-manager", {"exc": [o1.exc, o2.exc, o3.exc]}, "replies")
+                continue
+            if codes[0] != derr or codes[1] != derr:
+                viol("faulted-request-code", {"codes": codes[:2]}, {"errorcode": derr})
+                continue
+            ent = [(e[0], e[2][1] if e[0] == "x" else None) for e in w.log[mark:]]
+            opens = [i for i, e in enumerate(ent) if e[0] == "open"]
+            xs = [i for i, e in enumerate(ent) if e[0] == "x"]
+            if not opens or (xs and xs[0] < opens[0]):
+                viol("repair-not-done", {"log": ent[:8], "reply": o3.reply},
+                     "close / getDongle() and the bring-up before the request's own APDU")
+                continue
+            after = [e[1] for e in ent[opens[0] + 1:opens[0] + 1 + len(BRINGUP)]]
+            if after != BRINGUP or codes[2] not in (0, 1):
+                viol("repair-incomplete", {"apdus_after_open": after, "reply": o3.reply}, {"apdus_after_open": BRINGUP})
 
     def relock(self, case, stats, vs):
         """link failure, the device comes back LOCKED (bootloader): the repairing request unlocks it,
